@@ -33,6 +33,8 @@ var c01Sinks = []string{"text", "vtext", "attr", "attr2", "bound", "vbind", "bou
 	// canary and call checks do)
 	// a bracketed attribute is written out literally, but a mustache in its value is interpolated
 	"bracket",
+	// the value is one of several adjacent text nodes of its element (a <template> wrapper dissolves into its parent)
+	"text-tif", "text-tfor", "text-tslot",
 	"text~escape", "vtext~escape", "vtext~escapecall", "vtext~trim|escape", "attr~escape", "bound~escape", "text~trim", "vtext~string", "vtext~default"}
 
 // c01RawTextTags: the parser does not decode character references inside these
@@ -125,6 +127,12 @@ func c01SinkEl(sink, nbh, e, extra string) (el string, sinkAttr string, lDec, rD
 		return open + ` v-text="` + e + `">old</p>`, "", "", "", true
 	case "attr":
 		return open + ` title="` + lS + `{{ ` + e + ` }}` + rS + `">k</p>`, "title", lD, rD, true
+	case "text-tif":
+		return open + `>` + lS + `<template v-if="t">{{ ` + e + ` }}</template>` + rS + `</p>`, "", lD, rD, true
+	case "text-tfor":
+		return open + `>lead <template v-for="q in two">{{ ` + e + ` }};</template>` + rS + `</p>`, "", "", "", false
+	case "text-tslot":
+		return open + `>lead ` + lS + `<template v-if="t">a</template><template v-if="t">{{ ` + e + ` }}</template>` + rS + `</p>`, "", "", "", false
 	case "bracket":
 		return open + ` [title]="` + lS + `{{ ` + e + ` }}` + rS + `">k</p>`, "title", lD, rD, true
 	case "attr2":
